@@ -368,8 +368,8 @@ pub fn spec() -> PropSpec {
             Family { name: "zero-length-cids", f: fam_zero_len, weight: 15 },
             Family { name: "rebind", f: fam_rebind, weight: 20 },
         ],
-        quick_worlds: 10_000,
-        thorough_worlds: 300_000,
+        quick_worlds: 20_000,
+        thorough_worlds: 600_000,
         panic_is_violation: true,
         rule: "each world = up to 4 client endpoints with up to 3 connections each towards one server endpoint, connections opened, closed (by either side) and reopened at drawn instants so that drained handles and slots are reused, connection IDs of 0, 4, 5, 8 or 20 bytes with lifetimes of 200-400 ms in some families, client rebinding, replays of old datagrams of finished connections, and loss / duplication / reordering; non-trivial = a fault fired or >1 connection; distinct = distinct abstract-event signature",
         assumptions: vec![
